@@ -1281,11 +1281,11 @@ def _text_obligations(quick):
     base = {"n_sh": -1, "n_pn": -1, "n_pv": -1, "n_bv": -1}
     sl = [dict(base), dict(base, n_pv=1), dict(base, n_sh=1), dict(base, n_pn=0, n_pv=0), dict(base, n_pv=1, npar=1), dict(base, npar=0)]
     if not quick:
-        sl += [dict(base, n_pv=2), dict(base, n_sh=2), dict(base, n_pn=1, npar=1), dict(base, n_sh=1, n_pv=1)]
+        sl += [dict(base, n_pv=2), dict(base, n_sh=2), dict(base, n_pn=1, npar=1)]     # shader+value together: > 15 min, not kept
     obls.append(Obl("vmt.roundtrip", MOD, "h_vmt", slices=sl, budget_s=600 if quick else 2400, per_path_s=120,
                     desc="Material.export -> Material.parse: shader, parameters (name case, value, order, lookup), blocks, proxies; second export identical",
                     bound="5 parameters (1 symbolic), optional fallback block (nested) and proxies; shader / value symbolic over every code point "
-                          "at exact length 0-1 (2 thorough); parameter name: empty (quick), ASCII length 1 (thorough)"))
+                          "at exact length 0-1 (2 thorough), one slot at a time; parameter name: empty (quick), ASCII length 1 (thorough)"))
     sl = known("vmt.blocks", [dict(base, n_bv=1), dict(base, n_bv=0)] + ([] if quick else [dict(base, n_bv=2)]))
     obls.append(Obl("vmt.blocks", MOD, "h_vmt", slices=sl, budget_s=600, per_path_s=90,
                     desc="same with a symbolic leaf value inside a fallback block and a proxy (written through Keyvalues.serialise)",
